@@ -13,7 +13,9 @@ TRUSTED = ["Model/Myosin.v (layer_elements, median, non_integrated, integrated o
            "myosin.get_intensities by exact rational correspondence on integer-valued images; PIL getpixel (truncation of float "
            "coordinates toward zero) and scipy interp1d are oracles"]
 ASSUMPTIONS = ["tolerance 1e-12 where a mean or a polyline length (sqrt) is taken"]
-TESTED_NOT_PROVED = ["linearity in the image and the polyline length as divisor are evaluated by the oracle"]
+TESTED_NOT_PROVED = ["the polyline length as divisor (sqrt) and PIL's pixel access are evaluated by the oracle; linearity / homogeneity in the image and "
+                     "the uniform-image clause are proved for the model (C17_integrated_scale/_add, C17_non_integrated_scale/_uniform) and re-checked "
+                     "on the implementation by the oracle"]
 IMPORTS = "From Forsys Require Import Model.CaseUtil Model.Myosin.\n"
 
 
